@@ -8,6 +8,9 @@ CONSTANTS
   AllowTerm <- McAllowTerm
   AllowClose <- McAllowClose
   AllowPop = TRUE
+  Adv = {}
+  AdvMoves = {}
+  MaxAdv = 0
   Dev = {"zero_length_stuck", "start_after_term", "close_drops_socket_buffer", "close_before_peer_term"}
   Enforced = {}
   Known = {}
